@@ -16,7 +16,7 @@
         present, refuted by a witness when one is absent (inherent in the gogoproto options the
         .proto files choose). *)
 From Irismod Require Import Proto.Desc Proto.DescProofs Proto.Wire Proto.WireEnv Proto.WireProofs
-  Proto.Check Gen.Descriptors.
+  Proto.EnvProofs Proto.Check Gen.Descriptors.
 Open Scope string_scope.
 
 (** ** (a) descriptors *)
@@ -151,6 +151,23 @@ Theorem canonical_encodings_accepted : forall (e : env) (fs : list (N * value)) 
   forall fuel, (length (enc_fields fs) <= fuel)%nat -> dec_fields_strict fuel e m (enc_fields fs) = Some fs.
 Proof. exact dec_strict_enc_fields. Qed.
 Print Assumptions canonical_encodings_accepted.
+
+(** ** (a)+(b): equal descriptors drive the same codec *)
+
+(** The encoder/decoder environment is a function of the normalised descriptors only - for ANY
+    two descriptor sets, under either reading of the gogoproto options. *)
+Theorem same_descriptors_same_codec : forall (gogo : bool) (fs1 fs2 : list file),
+  norm fs1 = norm fs2 -> wire_env gogo fs1 = wire_env gogo fs2.
+Proof. exact same_descriptors_same_codec_lemma. Qed.
+Print Assumptions same_descriptors_same_codec.
+
+(** Hence, by [families_agree], every message defined under proto/irismod is encoded and decoded
+    by the same model codec in the two families: [encode]/[decode] for the gogoproto family's
+    descriptors ARE [encode]/[decode] for the api/ family's. *)
+Theorem irismod_codecs_agree : forall gogo : bool,
+  wire_env gogo gogo_files = wire_env gogo (in_scope gogo_scope pulsar_files).
+Proof. intro gogo. apply same_descriptors_same_codec. exact families_agree. Qed.
+Print Assumptions irismod_codecs_agree.
 
 (** ** (c) the cross-family round trip *)
 
